@@ -4,6 +4,9 @@ package checks
 
 import (
 	"fmt"
+	"sync"
+	"sync/atomic"
+	"time"
 
 	"github.com/grindlemire/go-lucene/internal/vsched"
 )
@@ -30,28 +33,59 @@ type segment struct {
 }
 
 type schedRun struct {
-	n        int
-	bodies   []func()
-	plan     []switchAt
-	pi       int
-	cur      int
-	step     int64
-	wake     []chan struct{}
-	done     []bool
-	finished chan struct{}
-	segs     []segment
-	segFrom  int64
-	panics   []any
-	steps    []int64  // per-thread step counts
-	hash     []uint64 // per-thread rolling hash of point ids (path identity)
-	badPlan  string
-	trace    []int32 // point id per global step (recorded only when keepTrace)
-	keep     bool
+	n       int
+	bodies  []func()
+	plan    []switchAt
+	pi      int
+	cur     int
+	step    int64
+	wake    []chan struct{}
+	done    []bool
+	segs    []segment
+	segFrom int64
+	panics  []any
+	steps   []int64  // per-thread step counts
+	hash    []uint64 // per-thread rolling hash of point ids (path identity)
+	badPlan string
+	trace   []int32 // point id per global step (recorded only when keepTrace)
+	keep    bool
+	// stall handling: the library may use real synchronisation (a mutex around a cache). If the
+	// running thread blocks on a lock held by a parked thread nobody makes progress; the controller
+	// notices (no new step for stallAfter), releases every parked thread and lets the execution
+	// finish free-running. Its results are still judged; the schedule is counted as stalled and not
+	// expanded further.
+	progress atomic.Int64
+	release  chan struct{}
+	released atomic.Bool
+	stalled  bool
+	wg       sync.WaitGroup
+}
+
+const stallAfter = 20 * time.Millisecond // two consecutive polls without a new statement
+
+// park blocks until the thread is woken by the scheduler or everything is released.
+func (s *schedRun) park(i int) {
+	select {
+	case <-s.wake[i]:
+	case <-s.release:
+	}
+}
+
+// handTo wakes thread t (unless the run was released meanwhile).
+func (s *schedRun) handTo(t int) {
+	select {
+	case s.wake[t] <- struct{}{}:
+	case <-s.release:
+	}
 }
 
 func (s *schedRun) alive(t int) bool { return t >= 0 && t < s.n && !s.done[t] }
 
 func (s *schedRun) hook(id int32) {
+	if s.released.Load() {
+		return
+	}
+	s.progress.Add(1)
 	me := s.cur
 	s.steps[me]++
 	s.hash[me] = s.hash[me]*1099511628211 ^ uint64(id)
@@ -72,8 +106,8 @@ func (s *schedRun) hook(id int32) {
 				s.segs = append(s.segs, segment{T: me, From: s.segFrom, To: s.step})
 				s.segFrom = s.step
 				s.cur = t
-				s.wake[t] <- struct{}{}
-				<-s.wake[me]
+				s.handTo(t)
+				s.park(me)
 			}
 		}
 	}
@@ -82,7 +116,8 @@ func (s *schedRun) hook(id int32) {
 
 // threadMain is the body of one harness thread.
 func (s *schedRun) threadMain(i int) {
-	<-s.wake[i]
+	defer s.wg.Done()
+	s.park(i)
 	func() {
 		defer func() {
 			if r := recover(); r != nil {
@@ -91,6 +126,9 @@ func (s *schedRun) threadMain(i int) {
 		}()
 		s.bodies[i]()
 	}()
+	if s.released.Load() {
+		return // free-running after a stall: no scheduler bookkeeping
+	}
 	// finished: hand over
 	s.done[i] = true
 	s.segs = append(s.segs, segment{T: i, From: s.segFrom, To: s.step, Finished: true})
@@ -114,11 +152,10 @@ func (s *schedRun) threadMain(i int) {
 		}
 	}
 	if next < 0 {
-		close(s.finished)
 		return
 	}
 	s.cur = next
-	s.wake[next] <- struct{}{}
+	s.handTo(next)
 }
 
 // runSchedule executes the bodies under the plan; first is the thread that runs first.
@@ -129,31 +166,57 @@ func runSchedule(bodies []func(), first int, plan []switchAt) *schedRun {
 func runScheduleT(bodies []func(), first int, plan []switchAt, keepTrace bool) *schedRun {
 	n := len(bodies)
 	s := &schedRun{keep: keepTrace, n: n, bodies: bodies, plan: plan, cur: first, wake: make([]chan struct{}, n), done: make([]bool, n),
-		finished: make(chan struct{}), panics: make([]any, n), steps: make([]int64, n), hash: make([]uint64, n)}
+		panics: make([]any, n), steps: make([]int64, n), hash: make([]uint64, n)}
 	for i := range s.wake {
 		s.wake[i] = make(chan struct{})
 		s.hash[i] = 14695981039346656037
 	}
+	s.release = make(chan struct{})
 	vsched.Steps = 0
 	vsched.Budget = 0
 	vsched.Hook = s.hook
+	s.wg.Add(n)
 	for i := 0; i < n; i++ {
 		go s.threadMain(i)
 	}
+	allDone := make(chan struct{})
+	go func() { s.wg.Wait(); close(allDone) }()
 	s.wake[first] <- struct{}{}
-	<-s.finished
+	last := int64(-1)
+	timer := time.NewTimer(stallAfter)
+	defer timer.Stop()
+	for finished := false; !finished; {
+		select {
+		case <-allDone:
+			finished = true
+		case <-timer.C:
+			if p := s.progress.Load(); p == last && !s.released.Load() {
+				// no statement executed for a while: a thread is blocked on something the scheduler
+				// does not own. Let everything run free to the end.
+				s.stalled = true
+				s.released.Store(true)
+				close(s.release)
+			} else {
+				last = p
+			}
+			timer.Reset(stallAfter)
+		}
+	}
 	vsched.Hook = nil
 	return s
 }
 
 // explorer: preemption-bounded depth-first search over schedules.
 type explorer struct {
-	bodies    func() []func() // fresh bodies (closures over fresh result slots) for every run
-	bound     int
-	check     func(s *schedRun, first int, plan []switchAt) bool // false = stop exploring (violation recorded)
-	schedules int64
-	maxSched  int64 // cap (0 = none); hitting it makes the exploration non-exhaustive
-	capped    bool
+	bodies       func() []func() // fresh bodies (closures over fresh result slots) for every run
+	bound        int
+	check        func(s *schedRun, first int, plan []switchAt) bool // false = stop exploring (violation recorded)
+	schedules    int64
+	stalledRuns  int64
+	stallPoints  map[int32]bool // point ids at which a preemption led to a stall
+	skippedStall int64
+	maxSched     int64 // cap (0 = none); hitting it makes the exploration non-exhaustive
+	capped       bool
 	// sharding: only level-1 subtrees with index%of == idx are explored (the root run is always done)
 	shardIdx, shardOf int
 	// coarse: preemptions are only placed at points for which interesting(id) holds
@@ -168,10 +231,24 @@ func (e *explorer) explore(first int, plan []switchAt, preemptions int, depth in
 		e.capped = true
 		return true
 	}
-	r := runScheduleT(e.bodies(), first, plan, e.coarse)
+	// a preemption at a point where an earlier schedule stalled (the preempted thread was inside a
+	// critical section of the library's own locks) would stall again: skip it, count it
+	r := runScheduleT(e.bodies(), first, plan, e.coarse || e.stallPoints != nil)
 	e.schedules++
 	if !e.check(r, first, plan) {
 		return false
+	}
+	if r.stalled {
+		e.stalledRuns++
+		if e.stallPoints == nil {
+			e.stallPoints = map[int32]bool{} // from now on runs keep their trace
+		}
+		if len(plan) > 0 {
+			if st := plan[len(plan)-1].Step; st >= 0 && st < int64(len(r.trace)) {
+				e.stallPoints[r.trace[st]] = true
+			}
+		}
+		return true // judged, but its segments are not a basis for further preemptions
 	}
 	var last int64 = -1
 	if len(plan) > 0 {
@@ -190,6 +267,10 @@ func (e *explorer) explore(first int, plan []switchAt, preemptions int, depth in
 			if preemptions < e.bound {
 				for st := from; st < sg.To; st++ {
 					if e.coarse && (st >= int64(len(r.trace)) || !e.interesting(r.trace[st], preemptions)) {
+						continue
+					}
+					if e.stallPoints != nil && st < int64(len(r.trace)) && e.stallPoints[r.trace[st]] {
+						e.skippedStall++
 						continue
 					}
 					for t := 0; t < r.n; t++ {
